@@ -6,6 +6,8 @@ import Mimium.Proofs.SchedMem
 import Mimium.Gen.Sched
 import Mimium.Proofs.HeapStdQueue
 import Mimium.Proofs.SchedHeap
+import Mimium.Proofs.SchedMemRec
+import Mimium.Model.SchedIO
 /-!
 # C11 — scheduled tasks run exactly once at exactly their sample time
 
@@ -515,6 +517,104 @@ theorem C11_wasm_closure_reuse_counterexample_on_binary_heap :
 example : (Vm.runH stdHeap counterEnv 5 0).ticks.map (·.execd.length) = [0, 1, 1, 1, 1] := by decide +kernel
 example : (W.runH stdHeap counterEnv 5 0).ticks.map (·.execd.length) = [0, 1, 1, 1, 1] := by decide +kernel
 example : (M.run stdHeap counterEnv 5 0).ticks.map (·.execd.length) = [0, 1, 1, 1, 1] := by decide +kernel
+
+
+/-! ## Closure records with upvalues (records larger than one cell): `R.run`
+
+`R.run fmt` (`Model/SchedMem.lean`) is the WASM side with closure memory where a record is `[function word][captured
+words…]` (`RecFmt`): records of one body are laid out back to back from the same base, the trampoline reads the function
+word at the task's address (a captured word found there makes `call_indirect` trap: the task is DROPPED) and the callee
+reads its captured words behind it. The driver runs `R.run tableFmt stdHeap` on generated programs whose closures
+capture a float (`selK(t, v)`); `M.run` is the one-cell instance. -/
+
+/-- with one-cell records `[id]` the model with record layout IS `M.run` -/
+theorem C11_wasm_mem_records_one_cell_eq {σ H : Type} (ops : HeapOps H) (env : Env σ) (n : Nat) (s0 : σ) :
+    R.run unitFmt ops env n s0 = M.run ops env n s0 :=
+  R.run_unitFmt ops env n s0
+
+/-- `C11_wasm_mem_slot_consistent_partial` for records of any sizes, over any heap meeting the specification: if the
+`j`-th `@` of every body always names the same closure (same function AND same captured words, hence same record size
+and address) and the layout is well formed (`RecFmt.Ok`: intact cells of closure `id` make the trampoline run `id`),
+the run is ideal. -/
+theorem C11_wasm_mem_records_slot_consistent_partial {σ H : Type} (ops : HeapOps H) (toList : H → List Task)
+    (Inv : H → Prop) (hs : HeapSpecI ops toList Inv) (fmt : RecFmt) (ok : fmt.Ok) (env : Env σ) (slot : Nat → Nat)
+    (n : Nat) (s0 : σ) (hf : env.Future) (hc : env.SlotConsistent slot) :
+    (R.run fmt ops env n s0).final.isSome ∧ (R.run fmt ops env n s0).ticks.length = n ∧
+    Ideal env 0 (env.global s0).2 (env.global s0).1 (R.run fmt ops env n s0).ticks ∧
+    ∀ (t : Nat) (ht : t < (R.run fmt ops env n s0).ticks.length),
+      ((R.run fmt ops env n s0).ticks[t]).execd.Perm
+        ((issuedBefore (R.run fmt ops env n s0).greqs (R.run fmt ops env n s0).ticks t).filter
+          (fun x => decide (x.when = t))) := by
+  obtain ⟨st', e, l, g, idl⟩ := R.run_spec hs hf hc ok n s0
+  refine ⟨by simp [e], l, idl, ?_⟩
+  intro t ht
+  have := idl.onTime t ht
+  simpa [issuedBefore, g] using this
+
+/-- … in particular with the literal `BinaryHeap` port inside -/
+theorem C11_wasm_mem_records_slot_consistent_on_binary_heap {σ : Type} (fmt : RecFmt) (ok : fmt.Ok) (env : Env σ)
+    (slot : Nat → Nat) (n : Nat) (s0 : σ) (hf : env.Future) (hc : env.SlotConsistent slot) :
+    (R.run fmt stdHeap env n s0).final.isSome ∧ (R.run fmt stdHeap env n s0).ticks.length = n ∧
+    Ideal env 0 (env.global s0).2 (env.global s0).1 (R.run fmt stdHeap env n s0).ticks :=
+  let h := C11_wasm_mem_records_slot_consistent_partial stdHeap _ _ stdHeap_spec fmt ok env slot n s0 hf hc
+  ⟨h.1, h.2.1, h.2.2.1⟩
+
+/-- the layout the driver uses for generated programs (`tK`: one cell; closure of `selK(t, v)`: two cells) is well formed -/
+theorem C11_table_record_format_ok : tableFmt.Ok := by
+  constructor
+  intro id rd h
+  by_cases hid : id < lamBase
+  · have h0 := h 0 (by simp [tableFmt, hid])
+    simp only [tableFmt, hid, if_true, List.getElem_cons_zero] at h0
+    simp only [tableFmt, h0]
+    have : 1 ≤ 1 + id ∧ 1 + id ≤ lamBase := by unfold lamBase at hid ⊢; omega
+    simp [this]
+  · have h0 := h 0 (by simp [tableFmt, hid])
+    have h1 := h 1 (by simp [tableFmt, hid])
+    simp only [tableFmt, hid, if_false, List.getElem_cons_zero, List.getElem_cons_succ] at h0 h1
+    simp only [tableFmt, h0, h1]
+    unfold lamBase lamId at *
+    have a1 : ¬ (1 ≤ 65536 + 1 + id % 65536 ∧ 65536 + 1 + id % 65536 ≤ 65536) := by omega
+    have a2 : 65536 < 65536 + 1 + id % 65536 ∧ 65536 + 1 + id % 65536 ≤ 2 * 65536 := by omega
+    simp only [a1, a2, if_false, if_true, and_self, Option.some.injEq]
+    have : id / 65536 - 1 + 1 = id / 65536 := by omega
+    rw [this]
+    have := Nat.div_add_mod id 65536
+    have e : 65536 + 1 + id % 65536 - 65536 - 1 = id % 65536 := by omega
+    rw [e]
+    rw [Nat.mul_comm]
+    exact this
+
+/-- **Negation on a concrete witness, records with an upvalue**: the task `t1@6` issued by `t3` is never executed —
+by sample 6 its address holds the captured word of closure 10's record, the trampoline's `call_indirect` traps and the
+scheduler goes on (a DROPPED task; with one-cell records F17 can only run a wrong function — which is what happens to
+`t0@6` here: its address now holds closure 10's function word). The queue model with stable handles runs `t1` and `t0` at 6. Shape replayed on the real runtimes by every check run (`corpus/C11/upvalue_records.txt`). -/
+theorem C11_wasm_record_upvalue_read_as_function_counterexample :
+    (R.run recFmt stdHeap recEnv 8 ()).ticks.map (·.execd)
+      = [[], [⟨1, 3⟩], [⟨2, 2⟩], [⟨3, 10⟩], [], [], [⟨6, 10⟩], []] ∧
+    (W.runH stdHeap recEnv 8 ()).ticks.map (·.execd)
+      = [[], [⟨1, 3⟩], [⟨2, 2⟩], [⟨3, 10⟩], [], [], [⟨6, 1⟩, ⟨6, 0⟩], []] ∧
+    ((R.run recFmt stdHeap recEnv 8 ()).ticks.flatMap (·.execd)).count ⟨6, 1⟩ = 0 ∧
+    ((R.run recFmt stdHeap recEnv 8 ()).greqs ++ (R.run recFmt stdHeap recEnv 8 ()).ticks.flatMap (·.reqs)).count ⟨6, 1⟩ = 1 := by
+  decide +kernel
+
+/-- non-vacuity: `recFmt` is well formed on the closures `recEnv` uses … and `counterEnv` is slot consistent (above), so
+the positive theorem applies to it with two-cell records as well -/
+example : ∀ id, id = 10 ∨ id < 99 → ∀ rd : Nat → Nat,
+    (∀ (k : Nat) (hk : k < (recFmt.cells id).length), rd k = (recFmt.cells id)[k]) → recFmt.decode rd = some id := by
+  intro id hid rd h
+  by_cases e : id = 10
+  · subst e
+    have := h 0 (by simp [recFmt])
+    simp [recFmt] at this ⊢
+    simp [this]
+  · have := h 0 (by simp [recFmt, e])
+    simp [recFmt, e] at this ⊢
+    have h2 : ¬ (1 + id = 100) := by omega
+    have h3 : 1 + id < 100 := by omega
+    simp [this, h2, h3]
+example : (R.run ⟨fun id => [id, 7], fun rd => some (rd 0)⟩ stdHeap counterEnv 5 0).ticks.map (·.execd.length)
+    = [0, 1, 1, 1, 1] := by decide +kernel
 
 
 /-! ## Non-vacuity -/
